@@ -334,6 +334,7 @@ class Formula:
                 self.func = func
                 self.signature = signature(func)
                 self.source = None
+                self._is_lambda = is_func_lambda(func)
 
         elif isinstance(func, str):
             self.module = module
